@@ -470,6 +470,9 @@ def run(chk: core.Check) -> None:
         chk.model(f'Strings/{name}', r)
         g = tla.load_dot(dot)
         os.remove(dot)
+        # TLC writes the edges in thread order: sort them so that the spelling rotation is deterministic
+        skey = {sid: repr(sorted(st['cur'].items())) for sid, st in g.states.items()}
+        g.edges.sort(key=lambda e: (skey[e[0]], e[2], e[3]))
         msgs = spec_oracles(g)
         if msgs:
             raise tla.MachineryError(f'spec/Strings disagrees with a python oracle: {msgs[:5]}')
